@@ -375,12 +375,12 @@ def part_binary(ctx, shard):
             if d0.kind in "iu" and d0.itemsize == 1 or d1.kind in "iu" and d1.itemsize == 1:
                 v0 = [min(x, 100) if not isinstance(x, complex) else x for x in v0]
                 v1 = [x % 100 + 1 if isinstance(x, int) else x for x in v1]
-            for form in ("ufunc", "operator", "inplace", "out", "scalar"):
+            for form in ("ufunc", "operator", "inplace", "out", "out_is_b", "scalar"):
                 if form == "operator" and opname in ("maximum", "minimum", "hypot"):
                     continue
                 if form in ("inplace",) and opname not in ("add", "subtract"):
                     continue
-                if form == "out" and opname in ("less", "equal"):
+                if form in ("out", "out_is_b") and opname in ("less", "equal"):
                     continue
                 ctx.count("evaluations")
                 if form == "scalar":
@@ -405,6 +405,8 @@ def part_binary(ctx, shard):
 
                     o = {"add": op.iadd, "subtract": op.isub}[opname]
                     call = lambda: o(a, b)
+                elif form == "out_is_b":
+                    call = lambda: uf(a, b, out=b)  # the buffer is the (rescaled) second operand itself
                 else:
                     buf = unyt_array(np.zeros(n, dtype=dt0), u0)
                     call = lambda: uf(a, b, out=buf)
@@ -414,14 +416,14 @@ def part_binary(ctx, shard):
                 ctx.outcome(("binary", opname, form, dt0, dt1, st))
                 if st == "raise":
                     # no float type of the target's size for an int8 in-place/out target is a legitimate refusal
-                    if form in ("inplace", "out") and d0.kind in "iu" and d0.itemsize == 1:
+                    if form in ("inplace", "out") and d0.kind in "iu" and d0.itemsize == 1 or form == "out_is_b" and d1.kind in "iu" and d1.itemsize == 1:
                         ctx.count("refused_no_float_type")
                         continue
                     ctx.count("binary_refused")
                     ctx.note_set("binary_refused", f"{opname}|{form}|{dt0}|{dt1}|{type(r).__name__}")
                     continue
                 ctx.decided(("binary", opname, form, dt0, dt1, u0, u1))
-                if not np.array_equal(np.asarray(b.d), b0) or (form != "inplace" and not np.array_equal(np.asarray(a.d), a0)):
+                if (form != "out_is_b" and not np.array_equal(np.asarray(b.d), b0)) or (form != "inplace" and not np.array_equal(np.asarray(a.d), a0)):
                     ctx.violation(base + "|mode=operand-changed", case, None, None)
                 res = np.asarray(r.d if isinstance(r, unyt_array) else r)
                 flat = res.reshape(-1)
@@ -444,7 +446,12 @@ def part_binary(ctx, shard):
                 s0, s1 = target_dtype(dt0).itemsize, target_dtype(dt1).itemsize
                 r0 = s0 // 2 if d0.kind == "c" else s0
                 r1 = s1 // 2 if d1.kind == "c" else s1
-                if r0 == r1 or form in ("inplace", "out"):
+                if form == "out_is_b":
+                    if d1.kind != "c" and cplx:
+                        pass
+                    elif flat.dtype.itemsize != s1:
+                        ctx.violation(base + f"|mode=wrong-float-width:{flat.dtype}", case, f"{s1} bytes", str(flat.dtype))
+                elif r0 == r1 or form in ("inplace", "out"):
                     size = max(s0, s1) if form not in ("inplace", "out") else s0
                     if form in ("inplace", "out") and d0.kind != "c" and d1.kind == "c":
                         size = None  # complex into a real buffer: covered by complex-became-real / refusal
@@ -475,8 +482,8 @@ def part_binary(ctx, shard):
                         trunc = want is not None and want != int(want) and float(g) == float(int(want))
                         ctx.violation(base + ("|mode=integer-truncated" if trunc else "|mode=wrong-value"), case, str(want), repr(g))
                         break
-                if form in ("inplace", "out"):
-                    tgt = np.asarray((a if form == "inplace" else buf).d)
+                if form in ("inplace", "out", "out_is_b"):
+                    tgt = np.asarray((a if form == "inplace" else b if form == "out_is_b" else buf).d)
                     if tgt.dtype.kind not in "fc":
                         ctx.violation(base + f"|mode=target-not-floating:{tgt.dtype}", case, "floating", str(tgt.dtype))
                     elif not np.array_equal(tgt.reshape(-1), flat):
